@@ -91,6 +91,9 @@ def gen_single(rng, **o):
     if o['nc'] >= 8:
         o.setdefault('nt', rng.randint(2, 3))
         o.setdefault('nsw', rng.randint(2, 3))
+    # stage 5: a channel_shanks.npy with two shanks (get_template keeps only the channels of the peak channel's shank, so
+    # the cluster waveforms of merged clusters live on the dominant template's shank)
+    o.setdefault('shanks', rng.random() < 0.25)
     sem = gen_probe_sem(rng, **o)
     nc = sem['n_channels']
     cm_dtype = o.get('cm_dtype', rng.choice(['int32', 'int64', 'uint32']))
@@ -107,7 +110,7 @@ def gen_single(rng, **o):
             cm_dtype = 'int32'
     sem['opts'].update({'table': table, 'nc': nc, 'geometry': o.get('geometry', '?')})
     return {'probes': [sem], 'merged': False, 'features': None, 'label': o.get('label', rng.choice(['', '', 'probe00'])),
-            'factor': o.get('factor', rng.choice([1.0, 2.0, 0.5, 2.5])),
+            'factor': o.get('factor', rng.choice([1.0, 2.0, 0.5, 2.5])), 'force': o.get('force', rng.random() < 0.3),
             'render': {'id_dtype': o.get('id_dtype', rng.choice(['uint32', 'int32', 'int64', 'uint16'])),
                        'tmpl_dtype': o.get('tmpl_dtype', rng.choice(['float32', 'float32', 'float64'])),
                        'cm_dtype': cm_dtype, 'vec2d': o.get('vec2d', rng.random() < 0.2)},
@@ -153,11 +156,45 @@ def gen_merged(rng, k=None, ncs=None, **o):
         feats = [G.feature_row(rng, 2, vanish=rng.random() < 0.2) for _ in range(total)]
     return {'probes': sems, 'merged': True, 'features': feats, 'label': o.get('label', rng.choice(['', '', 'probe00'])),
             'factor': o.get('factor', rng.choice([1.0, 2.0, 0.5, 2.5])),
+            # stage 5: convert(force=True) (copy_files then overwrites existing targets) and a merged channel_map.npy
+            # rewritten as an (n, 1) Matlab column (copy_files' squeeze branch rewrites its target whatever force is)
+            'force': o.get('force', rng.random() < 0.4), 'cm_col': o.get('cm_col', rng.random() < 0.2),
             'render': {'id_dtype': o.get('id_dtype', rng.choice(['uint32', 'int32', 'int64'])),
                        'tmpl_dtype': o.get('tmpl_dtype', rng.choice(['float32', 'float32', 'float64'])),
                        'cm_dtype': o.get('cm_dtype', rng.choice(['int32', 'int64', 'uint32'])), 'vec2d': False},
             'opts': {'k': k, 'ncs': list(ncs), 'wmi': wmi, 'mfeatures': bool(mfeat),
                      'curated': [s['opts']['curated'] for s in sems]}}
+
+
+def gen_merge_case(rng, **o):
+    """Stage 5: a curated single directory in which one cluster stems from 2..3 ARBITRARY templates (any ids, not only
+    0 + 1; the dominant one anywhere in the group, spike-count ties allowed) and the templates do not share their channel
+    neighbourhood: more than n_closest_channels = 12 channels on one shank (13..16 in a column / staggered) or two
+    shanks.  At most 10 spikes and template values multiples of lcm(1..10) (datasets_c09.gen, curated): integer means."""
+    o = dict(o)
+    nt = o.pop('nt', rng.randint(3, 6))
+    group = o.pop('group', None) or sorted(rng.sample(range(nt), rng.choice([2, 2, 3])))
+    dom = o.pop('dominant', rng.choice(group))
+    extra = o.pop('extra_spikes', rng.randint(0, min(4, 10 - nt)))
+    st = list(range(nt)) + [dom] * extra
+    for _ in range(rng.randint(0, 10 - len(st))):
+        st.append(rng.randrange(nt))
+    rng.shuffle(st)
+    new = o.pop('new_id', rng.choice([nt, nt, nt + 1, group[0]]))
+    sc = [new if t in group else t for t in st]
+    if rng.random() < o.pop('split', 0.25):          # and a split of the merged cluster / of another one
+        k = rng.randrange(len(sc))
+        sc[k] = max(sc) + 1
+    if 'nc' not in o:
+        if o.setdefault('shanks', rng.random() < 0.4):
+            o['nc'] = rng.choice([3, 4, 6, 8, 13])
+        else:
+            o['nc'] = rng.choice([13, 14, 15, 16])
+            o.setdefault('geometry', rng.choice(['column', 'column', 'stagger', 'square']))
+    inp = gen_single(rng, nt=nt, nspk=len(st), st=st, sc=sc, curated=True, empty='none',
+                     nsw=o.pop('nsw', rng.randint(2, 3)), table=o.pop('table', rng.choice(['none', 'none', 'const', 'like2'])), **o)
+    inp['opts'] = dict(inp['opts'], curated=True, merge_group=group, merge_dominant=dom)
+    return inp
 
 
 def gen_big(rng, n, **o):
@@ -222,11 +259,15 @@ def build_model(inp, base):
     from phylib.io.merge import Merger
     out = os.path.join(base, 'merged')
     m = Merger([Path(d) for d in dirs], Path(out)).merge()
-    if inp.get('features') is not None:
+    if inp.get('features') is not None or inp.get('cm_col'):
         m.close()
-        rows = inp['features']
-        data = np.array([[r, [1.0] * len(r)] for r in rows], dtype='float32')      # (n_spikes, n_pcs = 2, n_loc)
-        np.save(os.path.join(out, 'pc_features.npy'), data)
+        if inp.get('features') is not None:
+            rows = inp['features']
+            data = np.array([[r, [1.0] * len(r)] for r in rows], dtype='float32')      # (n_spikes, n_pcs = 2, n_loc)
+            np.save(os.path.join(out, 'pc_features.npy'), data)
+        if inp.get('cm_col'):
+            cm = np.load(os.path.join(out, 'channel_map.npy'))
+            np.save(os.path.join(out, 'channel_map.npy'), cm.reshape(-1, 1))
         m = load_model(Path(out) / 'params.py')
     return m
 
@@ -258,6 +299,7 @@ def snapshot(m, period=None):
         'pos': toks(np.array(m.channel_positions)), 'cmap': [int(x) for x in m.channel_mapping],
         'nspikes': k, 'nclosest': int(m.n_closest_channels),
         'nan_idx': [int(x) for x in np.asarray(m.nan_idx).ravel()],
+        'shanks': [int(x) for x in np.asarray(m.channel_shanks).ravel()],
         'feat': None if sf is None else {'data': toks(np.array(sf.data[:k])),
                                          'cols': None if sf.cols is None else [[int(x) for x in r] for r in np.array(sf.cols)]},
     }
